@@ -3,9 +3,11 @@ package checks
 import (
 	"os"
 	"strconv"
+	"strings"
 	"testing"
 
 	"verifharness/evid"
+	"verifharness/mon"
 )
 
 // tier and scale come from the driver.
@@ -31,6 +33,39 @@ func envInt(k string, d int) int {
 }
 
 func thorough() bool { return tier == "thorough" }
+
+// knownSigs: signatures listed as `known:` in /verif/KNOWN_FINDINGS.txt (handed over by
+// the driver). A violation with such a signature is recorded (the driver prints the
+// KNOWN-FINDING line) but does not stop the search, so exploration continues behind it.
+var knownSigs = func() map[string]bool {
+	m := map[string]bool{}
+	for _, l := range strings.Split(os.Getenv("VERIF_KNOWN"), "\n") {
+		if l = strings.TrimSpace(l); l != "" {
+			m[l] = true
+		}
+	}
+	return m
+}()
+
+type fataler interface {
+	Fatalf(format string, args ...any)
+}
+
+// settle records every violation; it stops the case only for one that is not a listed known finding.
+func settle(f fataler, rec *evid.Rec, vs []mon.V, trace interface{}, size int, ctx string) {
+	var fresh *mon.V
+	for i, v := range vs {
+		rec.Violation(v.Monitor, v.Sig, v.Detail, trace, size)
+		if knownSigs[v.Sig] {
+			rec.Class("known-finding:"+v.Sig, 1)
+		} else if fresh == nil {
+			fresh = &vs[i]
+		}
+	}
+	if fresh != nil {
+		f.Fatalf("%s\n%s", fresh.String(), ctx)
+	}
+}
 
 func TestMain(m *testing.M) {
 	code := m.Run()
